@@ -11,7 +11,7 @@ import (
 	"verifharness/internal/val"
 )
 
-var c08Floor = []string{"depth.2", "depth.3", "inner.empty", "outer.empty", "mid.empty", "ragged", "where", "item.alias", "item.nonidempotent", "item.star", "item.async", "item.userfn", "mix", "mix.keep", "reexec.after-fault", "opt.vars", "opt.constants", "item.aggregate", "item.all-aggregate"}
+var c08Floor = []string{"depth.2", "depth.3", "inner.empty", "outer.empty", "mid.empty", "ragged", "where", "item.alias", "item.nonidempotent", "item.star", "item.async", "item.userfn", "mix", "mix.keep", "reexec.after-fault", "opt.vars", "opt.constants", "item.aggregate", "item.all-aggregate", "where.aggregate", "reexec"}
 
 func init() {
 	fw.Register(&fw.Prop{
@@ -156,6 +156,19 @@ func c08Run(c *fw.Case) {
 			feats = append(feats, "item.async")
 		}
 	}
+	// an aggregate inside WHERE is computed over the inner array as well
+	// (mix=> computes it over the flattened whole, so it is not asserted then)
+	whereAgg := false
+	if !containsStr(feats, "item.userfn") && !containsStr(feats, "item.async") && (force == "where.aggregate" || force == "reexec" || c.Chance(0.1)) {
+		aw := gen.Pick(c.R, []string{"n1 >= AVG(n1)", "n1 <= COUNT(*)", "n1 < MAX(n1)", "n2 > MIN(n2)"})
+		if where == "" {
+			where = " WHERE " + aw
+		} else {
+			where = " WHERE " + aw + " AND (" + strings.TrimPrefix(where, " WHERE ") + ")"
+		}
+		feats = append(feats, "where.aggregate", "where")
+		whereAgg = true
+	}
 	// aggregates without GROUP BY are computed over the inner array they run in
 	hasAgg := false
 	if len(items) > 0 && items[0] != "*" && (force == "item.aggregate" || force == "item.all-aggregate" || c.Chance(0.15)) && !containsStr(feats, "item.userfn") && !containsStr(feats, "item.async") {
@@ -282,7 +295,7 @@ func c08Run(c *fw.Case) {
 		return
 	}
 	// mix=> : concatenation of the inner results
-	if !hasAgg && (force == "mix" || c.Chance(0.5)) {
+	if !hasAgg && !whereAgg && (force == "mix" || c.Chance(0.5)) {
 		msql := "SELECT " + sel + " FROM `mix=>mm`" + where
 		m := Run(val.CopyMap(doc), msql, opts()...)
 		evals++
@@ -295,6 +308,25 @@ func c08Run(c *fw.Case) {
 		if !(len(m.Rows) == 0 && len(concat) == 0) && !val.SameSeq(m.Rows, concat) {
 			c.Violate("mix-differs", fmt.Sprintf("mix=> returned %s, the concatenation of the inner results is %s", short(val.Canon(m.Rows), 250), short(val.Canon(concat), 250)), det2)
 			return
+		}
+	}
+	// the same Query object executed again (nothing failed in between) applies
+	// the query inside every inner array again
+	if !containsStr(feats, "item.async") && (force == "reexec" || c.Chance(0.3)) {
+		armFault(0, faultNone)
+		if q, nerr := newSafe(val.CopyMap(doc), sql, opts()...); q != nil && nerr.Err == nil {
+			first := execBuilt(q)
+			second := execBuilt(q)
+			third := execBuilt(q)
+			evals += 3
+			feats = append(feats, "reexec")
+			for i, r := range []Outcome{first, second, third} {
+				if !(r.OK() && sameSelValue(r.Rows, o.Rows)) {
+					c.Violate("reexec-differs", fmt.Sprintf("execution %d of the same Query object returned %s instead of the nested result %s", i+1, short(fmt.Sprint(r.Describe()), 250), short(val.Canon(o.Rows), 250)),
+						map[string]any{"sql": sql, "doc": doc, "execution": i + 1, "observed": r.Describe()})
+					return
+				}
+			}
 		}
 	}
 	// a Query object whose first execution failed part-way through some inner
@@ -324,7 +356,7 @@ func c08Run(c *fw.Case) {
 	}
 	// a top-level function combined with a keep=> step in the same path:
 	// mix=> over the first K inner arrays
-	if !hasAgg && (force == "mix.keep" || c.Chance(0.25)) {
+	if !hasAgg && !whereAgg && (force == "mix.keep" || c.Chance(0.25)) {
 		K := c.Intn(len(mm) + 1)
 		ksql := fmt.Sprintf("SELECT %s FROM `mix=>mm[keep=>(0:%d)]`%s", sel, K, where)
 		k := Run(val.CopyMap(doc), ksql, opts()...)
